@@ -114,6 +114,26 @@ pub fn yield_point(name: &'static str) {
     }
 }
 
+/// Decides, per file operation of a seamed file, whether it fails: receives the operation
+/// name ("create", "open", "write", "read", "sync", "remove") and the path.
+pub type FsFault = Box<dyn FnMut(&'static str, &::std::path::Path) -> Option<::std::io::Error>>;
+
+thread_local! {
+    static FS_FAULT: RefCell<Option<FsFault>> = const { RefCell::new(None) };
+}
+
+/// Installs (or clears) the I/O fault decider of the current OS thread.
+pub fn install_fs_fault(f: Option<FsFault>) {
+    FS_FAULT.with(|h| *h.borrow_mut() = f);
+}
+
+fn fs_fault(op: &'static str, path: &::std::path::Path) -> ::std::io::Result<()> {
+    FS_FAULT.with(|h| match h.borrow_mut().as_mut().and_then(|f| f(op, path)) {
+        Some(e) => Err(e),
+        None => Ok(()),
+    })
+}
+
 fn fs_event(ev: FsEvent) {
     if !active() {
         return;
@@ -148,7 +168,7 @@ pub mod fake_std {
         use ::std::io;
         use ::std::path::{Path, PathBuf};
 
-        use super::super::{FsEvent, fs_event};
+        use super::super::{FsEvent, fs_event, fs_fault};
 
         /// Pass-through file that reports writes and syncs.
         #[derive(Debug)]
@@ -159,6 +179,7 @@ pub mod fake_std {
 
         impl File {
             pub fn open<P: AsRef<Path>>(path: P) -> io::Result<File> {
+                fs_fault("open", path.as_ref())?;
                 let inner = ::std::fs::File::open(path.as_ref())?;
                 Ok(File {
                     inner,
@@ -167,6 +188,7 @@ pub mod fake_std {
             }
 
             pub fn create<P: AsRef<Path>>(path: P) -> io::Result<File> {
+                fs_fault("create", path.as_ref())?;
                 let inner = ::std::fs::File::create(path.as_ref())?;
                 fs_event(FsEvent::Create {
                     path: path.as_ref().to_path_buf(),
@@ -178,6 +200,7 @@ pub mod fake_std {
             }
 
             pub fn sync_all(&self) -> io::Result<()> {
+                fs_fault("sync", &self.path)?;
                 self.inner.sync_all()?;
                 fs_event(FsEvent::Sync {
                     path: self.path.clone(),
@@ -204,6 +227,7 @@ pub mod fake_std {
 
         impl io::Write for File {
             fn write(&mut self, buf: &[u8]) -> io::Result<usize> {
+                fs_fault("write", &self.path)?;
                 let n = self.inner.write(buf)?;
                 if n > 0 {
                     fs_event(FsEvent::Write {
@@ -221,6 +245,7 @@ pub mod fake_std {
 
         impl io::Read for File {
             fn read(&mut self, buf: &mut [u8]) -> io::Result<usize> {
+                fs_fault("read", &self.path)?;
                 self.inner.read(buf)
             }
         }
@@ -269,6 +294,7 @@ pub mod fake_std {
                 self
             }
             pub fn open<P: AsRef<Path>>(&self, path: P) -> io::Result<File> {
+                fs_fault("open", path.as_ref())?;
                 let existed = path.as_ref().exists();
                 let inner = self.inner.open(path.as_ref())?;
                 let len = inner.metadata().map(|m| m.len()).unwrap_or(0);
@@ -294,6 +320,7 @@ pub mod fake_std {
         }
 
         pub fn remove_file<P: AsRef<Path>>(path: P) -> io::Result<()> {
+            fs_fault("remove", path.as_ref())?;
             ::std::fs::remove_file(path.as_ref())?;
             fs_event(FsEvent::Remove {
                 path: path.as_ref().to_path_buf(),
@@ -322,6 +349,12 @@ pub mod fake_std {
                 }
             }
             pub fn with_capacity(capacity: usize, inner: W) -> Self {
+                // `io.bufwriter.capacity.cap` shrinks explicitly sized buffers too, so that
+                // small workloads reach the file (and its faults) before the final flush
+                let capacity = match super::super::knob("io.bufwriter.capacity.cap") {
+                    Some(cap) => capacity.min(cap as usize).max(1),
+                    None => capacity,
+                };
                 Self {
                     inner: ::std::io::BufWriter::with_capacity(capacity, inner),
                 }
